@@ -29,8 +29,36 @@ def rowsOf (t : StructTab) : Nat := (t.map (·.2.2.length)).foldl (· + ·) 0
 
 def b2s (b : Bool) : String := if b then "true" else "false"
 
+/-- `SEQ <class> <prop> <start> <arg>…` with arg = `s:<string>` or `i:<int>`: run the setter model over the history and
+    print the final field value and what the getter returns -/
+def parseArg (t : String) : OptArg :=
+  if t.startsWith "i:" then .int ((t.drop 2).toString.toInt?.getD 0)
+  else .str ((t.drop 2).toString.toList.map Char.toNat)
+
+def seqLine (toks : List String) : String :=
+  match toks with
+  | _ :: cls :: prop :: start :: args =>
+    let c := cls.toList.map Char.toNat
+    let p := prop.toList.map Char.toNat
+    match pySetterSpecs.find? (fun sp => nameEq sp.cls c && nameEq sp.prop p) with
+    | none => "SEQR\tnospec"
+    | some sp =>
+      let d := itemsOf sp.dict pyOptRows
+      let v := assignAll sp.lowerCase sp.strip d (start.toInt?.getD 0) (args.map parseArg)
+      let g := match getOpt d v with | some n => n.str | none => toString v
+      s!"SEQR\t{v}\t{g}"
+  | _ => "SEQR\tbad"
+
+partial def seqLoop (h : IO.FS.Stream) (out : IO.FS.Stream) : IO Unit := do
+  let line ← h.getLine
+  if line.isEmpty then return ()
+  let toks := (line.trimAscii.toString.splitOn " ").filter (· ≠ "")
+  if toks.head? == some "SEQ" then out.putStrLn (seqLine toks)
+  seqLoop h out
+
 def main : IO Unit := do
   let out ← IO.getStdout
+  seqLoop (← IO.getStdin) out
   for e in classMap do
     match classLayoutBad tables e with
     | [] => out.putStrLn s!"LAYOUT\t{e.1.str}\t{e.2.1.str}\tok"
